@@ -32,7 +32,11 @@ func init() {
 						f.Input = map[string]interface{}{"inp": model.Ints(inp), "verdict": map[string]interface{}{"acc": false, "why": "", "v": model.Value{K: "nil"}, "tol": []string{}}}
 						col.Add(*f)
 					}
-					col.Case(fmt.Sprintf("%x/%d", inp, ci), 1, nil)
+					var sample []byte
+					if hostile && ci == 0 {
+						sample, _ = jsonMarshal(map[string]interface{}{"input_hex": fmt.Sprintf("%x", inp), "configuration": cfg.String()})
+					}
+					col.Case(fmt.Sprintf("%x/%d", inp, ci), 1, sample)
 				}
 				n++
 			}
